@@ -35,3 +35,4 @@ def run(prog, rep):
     r_frame.run_overload_defaults(prog, rep)
     from ..rules import r_order as _roe
     _roe.run_exact_compare(prog, rep)
+    r_frame.run_count_respected(prog, rep)
